@@ -21,6 +21,32 @@ fn content(pattern: u8, len: usize) -> Vec<u8> {
     }
 }
 
+/// A writer that implements only `write` and `flush` (everything else is std's default) and
+/// records every call: what a report-per-write HID device wrapper looks like.
+#[derive(Default)]
+struct PlainWriter {
+    calls: Vec<Vec<u8>>,
+}
+impl std::io::Write for PlainWriter {
+    fn write(&mut self, buf: &[u8]) -> std::io::Result<usize> {
+        self.calls.push(buf.to_vec());
+        Ok(buf.len())
+    }
+    fn flush(&mut self) -> std::io::Result<()> {
+        Ok(())
+    }
+}
+/// the same message through the plain writer: the concatenation of what it was handed
+fn send_plain(channel: u32, cmd: Command, payload: &[u8]) -> Result<Option<(Vec<u8>, Vec<usize>)>, String> {
+    par::catch(|| match Message::new(channel, cmd, payload) {
+        Err(_) => None,
+        Ok(m) => {
+            let mut w = PlainWriter::default();
+            m.send(&mut w).ok().map(|_| (w.calls.concat(), w.calls.iter().map(|c| c.len()).collect()))
+        }
+    })
+}
+
 /// bytes the sender writes, or None when the message is refused
 fn send(channel: u32, cmd: Command, payload: &[u8]) -> Result<Option<Vec<u8>>, String> {
     par::catch(|| match Message::new(channel, cmd, payload) {
@@ -62,6 +88,16 @@ pub fn eval_single(c: &Single) -> (Vec<Finding>, &'static str) {
     if c.len > MAX {
         bad("oversized-payload-accepted", format!("a {}-byte payload (> {MAX}) was accepted ({} bytes written)", c.len, wire.len()));
         return (fs, "accepted-oversized");
+    }
+    // the same message into a writer that only implements write/flush: the same bytes, in whole packets
+    match send_plain(c.channel, cmd, &payload) {
+        Err(p) => bad(&format!("panic-in-sender/site={}", par::panic_site(&p)), format!("plain writer: {p}")),
+        Ok(None) => bad("writer-dependent", "the message is written into a Vec but refused for a writer that only implements write/flush".into()),
+        Ok(Some((bytes, calls))) => {
+            if bytes != wire {
+                bad("writer-dependent", format!("a writer that only implements write/flush receives {} bytes in calls of {:?}, a Vec receives {} bytes", bytes.len(), &calls[..calls.len().min(6)], wire.len()));
+            }
+        }
     }
     if wire.len() % 64 != 0 || wire.is_empty() {
         bad("not-64-byte-packets", format!("{} bytes written", wire.len()));
@@ -558,7 +594,7 @@ pub fn run(ctx: &Ctx) -> Result<Run, String> {
     stats.samples.push(json!({"starve": sv[sv.len() / 2]}));
     let mut run = Run::from_stats(
         "model_checking",
-        "single channel: every payload length 0..7700 and 65535/65536/70000 (all 9 commands x 4 channel ids at the boundary lengths, rotating command/channel and 3 content patterns elsewhere): written bytes parsed by the harness (64-byte packets, header layout, sequence numbers, zero padding, packet count) and fed to a fresh receiver, and the message the receiver delivers is sent again (must be written as the same packets); interleavings: stateright BFS whose state is the real ChannelHandler (cloned via the verif hook) plus the next-packet index per stream, over all combinations of 2, 3 and 4 concurrently transmitting channels with payload lengths from {0,57,58,116,117,175,234} (1..4 packets; thorough adds streams of 5 and 6 packets for 2 and 3 channels), channels sending two messages back to back, and one stray continuation packet for an idle channel at any point; deduplicated on (indices, hook snapshot); run twice with different thread counts; cross-checked by a hook-free enumeration of all complete interleavings for 2 and 3 channels; starvation: a 3-packet message held back after its first / second packet while other channels send every number of packets 0..300 (thorough 0..1100) and 1024, 2048, 4096, 10000 as whole messages in three traffic shapes (maximal messages, two channels alternating single packets, 2-packet messages), each of which must be delivered too",
+        "single channel: every payload length 0..7700 and 65535/65536/70000 (all 9 commands x 4 channel ids at the boundary lengths, rotating command/channel and 3 content patterns elsewhere): written into a Vec and into a writer that only implements write/flush (same bytes); written bytes parsed by the harness (64-byte packets, header layout, sequence numbers, zero padding, packet count) and fed to a fresh receiver, and the message the receiver delivers is sent again (must be written as the same packets); interleavings: stateright BFS whose state is the real ChannelHandler (cloned via the verif hook) plus the next-packet index per stream, over all combinations of 2, 3 and 4 concurrently transmitting channels with payload lengths from {0,57,58,116,117,175,234} (1..4 packets; thorough adds streams of 5 and 6 packets for 2 and 3 channels), channels sending two messages back to back, and one stray continuation packet for an idle channel at any point; deduplicated on (indices, hook snapshot); run twice with different thread counts; cross-checked by a hook-free enumeration of all complete interleavings for 2 and 3 channels; starvation: a 3-packet message held back after its first / second packet while other channels send every number of packets 0..300 (thorough 0..1100) and 1024, 2048, 4096, 10000 as whole messages in three traffic shapes (maximal messages, two channels alternating single packets, 2-packet messages), each of which must be delivered too",
         true,
         stats,
     );
